@@ -29,7 +29,8 @@ META = {
                   'final-normalisation statement blocks extracted from the current source by AST)',
                   'enspara.msm.libmsm._mle_prinz_dense (typed Cython tree, whole function with max_iter=1)', 'enspara.msm.builders.mle'],
     'bounds': {'quick': 'n=2 states (n=3 for the update blocks and the final block); FP model Float32 for the reachability question; '
-                        'RelErr model u=2^-53; one real sweep (max_iter=1, tol=inf)',
+                        'RelErr model u=2^-53; one real sweep (max_iter=1, tol=inf); pair-update assertion from a state whose row sums are within a relative 2^-30 of '
+                        'the true row sums (n<=3)',
                'thorough': 'FP model Float64 (n=2), update blocks n=3, sweep with the default tolerance'},
     'stubs': ['sqrt = r>=0 & r*r=x', 'log / log10 = one fresh real per distinct argument (only the convergence test reads them)',
               'warnings.warn is the real function'],
